@@ -29,6 +29,7 @@ CONSTANTS MaxRows,       \* next() calls explored per behaviour
 \* value alphabets selectable from the configuration file
 QSmall == {Num(WFromNat(1)), Num(WFromNat(2))}
 RSmall == {Num(WFromNat(1)), VZ}
+QMid == {Num(W0), Num(WFromNat(1)), VX}
 QBig == {Num(W0), Num(WFromNat(1)), Num(WFromNat(2)), VX}
 RBig == {Num(WFromNat(1)), Num(WFromNat(15)), VZ}
 
